@@ -173,6 +173,11 @@ def run(tier, seed, replay_path=None):
     # socket level
     from . import sock_common
     sock_common.c09_socket(ck, tier)
+    # connection-loop level: the same pipelines under every way of cutting them into reads (symbolic read sizes) produce the
+    # responses the requests determine - executed by the real Client::handle (see C12 for the full menu)
+    from . import C12
+    items = [(4, 'silent'), (0, 'eof'), (3, 'silent')] if tier == 'quick' else [(f, e) for f in range(8) for e in ('eof', 'silent')]
+    ck.fork_map(items, lambda c, it: C12.explore_first(c, it[0], 2, 8, tier, it[1]))
     return ck.finish()
 
 
